@@ -4,6 +4,7 @@
    reference leaves the order unspecified; Order.tla only requires it to be consistent.
    This checked-in copy holds the values observed on linux/amd64 so that the modules can be
    checked stand-alone. *)
+EXTENDS Integers
 Kinds == <<"num", "str", "bool", "list", "nil", "map">>
 KR == [num  |-> [num |-> 0, str |-> -1, bool |-> 1, list |-> -1, nil |-> 1, map |-> -1],
        str  |-> [num |-> 1, str |-> 0, bool |-> 1, list |-> -1, nil |-> 1, map |-> -1],
